@@ -21,12 +21,12 @@ def run_l2(run, cases, nprojects):
         locs = [a["def"]] + list(a["nondef"])
         calls, info = [], {}
         for j, k in enumerate(a["keys"]):
-            paths = [([k["name"]], 0)] if k["kind"] == "v" else [([k["name"], lf["name"]], q + 1) for q, lf in enumerate(k["leaves"])]
+            paths = [([k["name"]], 0)] if k["kind"] in ("v", "i") else [([k["name"], lf["name"]], q + 1) for q, lf in enumerate(k["leaves"])]
             for path, q in paths:
                 for loc in locs:
                     for flav in (("td_string", "td") if j % 7 == 0 else ("td_string",)):
                         cid = len(calls) + 1
-                        calls.append({"id": cid, "flav": flav, "locale": loc, "path": path, "args": []})
+                        calls.append({"id": cid, "flav": flav, "locale": loc, "path": path, "args": [["var", "x", '"X1"']] if k["kind"] == "i" else []})
                         info[cid] = {"j": j + 1, "q": q, "locale": loc, "flav": flav}
         projects.append({"name": "c03p%d" % pi, "cfg": c["cfg"], "files": c["files"], "calls": calls})
         meta.append(info)
